@@ -149,6 +149,7 @@ def sameMultiset (a b : List String) : Bool :=
 def judgeStep (stp : Step) (prev : List Cluster) (prevGrave : List Backend) (status : String) (tbl : List Cluster) (grave : List Backend)
     (sel fresh : List String) (hadGslbErr : Bool) : Option String :=
   if status == "panic" then some (if hadGslbErr then "reload-err-double-release" else "double-release")
+  else if status == "vermismatch" then some "versions-not-updated"   -- BalTable.GetVersions does not report the conf in use
   else
   let objs := tbl.flatMap fun c => c.subs.flatMap (·.backs)
   if objs.any (·.released ≥ 1) then some (if hadGslbErr then "reload-err-released-reachable" else "released-reachable")
@@ -190,6 +191,16 @@ def judgeStep (stp : Step) (prev : List Cluster) (prevGrave : List Backend) (sta
       if isInit stp.kind || cands.isEmpty then !(b.avail && b.failNum == 0 && b.connNum == 0)
       else !(cands.any fun o => o.avail == b.avail && o.failNum == b.failNum && o.connNum == b.connNum)
   if lost then some "state-lost"
+  else
+  -- restart flag (slow start): backends ADDED by a reload carry it, backends created by Init do not, survivors keep theirs
+  let flagWrong := tbl.any fun c => c.subs.any fun s =>
+    let old := ((prev.find? (·.name == c.name)).bind fun pc => pc.subs.find? (·.name == s.name)).map (·.backs) |>.getD []
+    s.backs.any fun b =>
+      let cands := old.filter (·.key == b.key)
+      if isInit stp.kind then b.restarted
+      else if cands.isEmpty then !b.restarted
+      else !(cands.any fun o => o.restarted == b.restarted)
+  if flagWrong then some "restart-flag-wrong"
   else
   -- a backend whose configured (Addr, Port) persists in its sub-cluster must not be released: judged for keys that
   -- occur exactly once in the whole previous table (so the grave entry can only be that object)
@@ -276,7 +287,7 @@ def run (op impl : String) : Ans :=
                 match parseImplTable t, parseObjs g with
                 | some tbl, some gr =>
                   let same := decide (tbl = a.implPrev) && sameMultiset (gr.map showObj) (a.implGrave.map showObj)
-                  ((if s != "rejected" then some "rejected-conf-accepted"
+                  ((if s == "vermismatch" then some "versions-not-updated" else if s != "rejected" then some "rejected-conf-accepted"
                     else if !same then some "rejected-reload-changed-state" else none),
                    (stp.evts.foldl applyEvt { clusters := tbl }).clusters, gr)
                 | _, _ => (some "unparsable", a.implPrev, a.implGrave)
